@@ -524,6 +524,15 @@ func (f *frame) execConvert(x *ssa.Convert, in string, st *State) {
 			f.vals[x] = Val{T: v.T, Typ: x.Type()}
 			return
 		}
+		if nf := ""; vc.Spec != nil && f.top && tb < fb && func() bool { nf = vc.Spec.Flags["narrow"]; return nf == "checked" || (nf != "" && nf == types.TypeString(x.Type(), nil)) }() {
+			// "flag narrow=checked" (every one) / "flag narrow=uint16" (those to that
+			// type): a conversion to a narrower integer type must
+			// not change the value (a silent truncation is reported like an
+			// out-of-range index). Not subject to may_panic: it does not panic.
+			if r := RangeOf(x.Type(), v.T); r != "true" {
+				vc.oblige("narrow", vc.anchorAt(f.fn, x.Pos(), "call"), in, r, vc.posOf(x.Pos()), "narrowing conversion keeps the value")
+			}
+		}
 		f.name(x, Wrap(x.Type(), v.T))
 	case from == "Int" && to == "Real":
 		f.name(x, App("to_real", v.T))
@@ -558,8 +567,11 @@ func (vc *VC) bytesToStr(st *State, s string) string {
 	if !vc.absFns["str.of_"] {
 		vc.absFns["str.of_"] = true
 		vc.lines = append(vc.lines, "(declare-fun str.of_ ((Array Loc Int) Slice) Str)",
-			"(assert (forall ((h (Array Loc Int)) (s Slice)) (! (= (str.len_ (str.of_ h s)) (sl.len s)) :pattern ((str.of_ h s)))))",
-			"(assert (forall ((h (Array Loc Int)) (s Slice) (i Int)) (! (=> (and (<= 0 i) (< i (sl.len s))) (= (str.at_ (str.of_ h s) i) (select h (Elem (sl.base s) (+ (sl.off s) i))))) :pattern ((str.at_ (str.of_ h s) i)))))")
+			"(assert (forall ((h (Array Loc Int)) (s Slice)) (! (=> (>= (sl.len s) 0) (= (str.len_ (str.of_ h s)) (sl.len s))) :pattern ((str.of_ h s)))))",
+			// only for cells that hold a byte: str.at_ is a byte for EVERY string, so an
+			// unguarded equation is inconsistent for heaps h that hold other integers
+			// at those cells (found by an unsat reachability cover, 2026-09-22)
+			"(assert (forall ((h (Array Loc Int)) (s Slice) (i Int)) (! (=> (and (<= 0 i) (< i (sl.len s)) (<= 0 (select h (Elem (sl.base s) (+ (sl.off s) i)))) (< (select h (Elem (sl.base s) (+ (sl.off s) i))) 256)) (= (str.at_ (str.of_ h s) i) (select h (Elem (sl.base s) (+ (sl.off s) i))))) :pattern ((str.at_ (str.of_ h s) i)))))")
 	}
 	return App("str.of_", st.H["Int"], s)
 }
